@@ -13,6 +13,9 @@ checks = {
  "C15": dict(cat="exploration", engine="seq", tech=SEQ + " (independent reference interpreter for every transform and match operator)", ref="DESIGN.md §5 C15, Appendix A.4",
    text="every leaf transform with its parameter menu, every match operator x argument x carrier, systematic glob patterns x values, all ordered pairs of a 24-leaf menu, leaves under every control context to depth 2/3, all if/switch/block nestings over marker and drop leaves, sampling rates 1..99 x every prefix up to 300 matched records; oracle: fields, Unescaped flag, PASS/DROP and label counts equal the reference interpreter; second record through the same instance",
    note="nesting grammar at depth >=2 restricted in breadth (see harness/seq_transform/README.md); addFields pair order undefined, only order-independent pair sets; 4 known findings in the third-party glob matcher"),
+ "C16": dict(cat="exploration", engine="seq", tech="exhaustive enumeration of (site x invalid-kind) configuration mutants and of a bounded grammar of valid configurations through the real loader, then full instantiation and a record menu", ref="DESIGN.md §5 C16",
+   text="sample configuration + ~40 minimal base files; every YAML node naming a field/capture/template/pattern/bound/size/type/section is a site, every applicable invalid kind is applied; ParseConfigFile must return; accepted files are fully instantiated (parser with extractions, transforms, rewriters, serializers, chunk makers, real orchestrator with pipelines and hybrid buffers, inputs) and process a 38-record menu without panic; valid side: leaf transforms alone, in ordered pairs and nested to depth 2, orchestrators x outputs",
+   note="silent acceptance of values that never panic (unknown hiddenFields entry, negative duration, empty output name) tolerated; see harness/seq_config/README.md"),
  "C17": dict(cat="model_checking", engine="vsched+explore", tech=MC, ref="DESIGN.md §5 C17",
    text="all interleavings within the preemption bound of two connection threads, the real SIGHUP goroutine of run.ReloadableOrchestrator and the moment(s) of SIGHUP, at the orchestrator API with recording downstream orchestrators: distinct and reused client numbers, reload succeeding and failing, two reloads; oracles: no record handed to a shut-down pipeline set, every accepted record delivered exactly once, no sink closed by another connection, no nil-sink panic, failed reload has no effect but the failure count",
    note="API level (the deciding level the property names); preemption bound 2 quick / 3 thorough; downstream orchestrators are recording fakes; configuration-file level of reload is exercised by run's own tests and the composed harness"),
